@@ -374,7 +374,7 @@ theorem mkAtomOK_plain (n : String) (a : Generic.Atom) (s : Single) (hn : n ∈ 
   simp only at hx hv; subst hx
   cases op with
   | eq =>
-    have := mkSingle_string_bare n v hn1 hv
+    have := mkSingle_string_eq n v hn1 hv.1 (fun h0 => (hv.2 '=' h0).2.2.2.2.2.2.2.2.2 rfl)
     simp only [mkSingleOfC, LeafC.toStr, GC.toStr, GS.toStr, Generic.Atom.toStr, bind, Except.bind] at h
     simp at h
     rw [this] at h; cases h
